@@ -100,7 +100,7 @@ class Prog:
             catch = None
             if chain_budget[0] > 0 and nxt is not None and r.random() < .35:
                 chain_budget[0] -= 1
-                catch = r.choice(["from", "plain", "fromnone", "handler", "from"])
+                catch = r.choice(["from", "plain", "fromnone", "handler", "from", "fromfresh"])
             nxt = self.step(m, kind, sid, nxt, catch, chain_budget)
         return nxt
 
@@ -130,6 +130,9 @@ class Prog:
             ln = self.emit(m, "%s    raise %s('chained%d') from e" % (ind, cls, sid))
         elif catch == "plain":
             ln = self.emit(m, "%s    raise %s('context%d')" % (ind, cls, sid))
+        elif catch == "fromfresh":
+            # __cause__ (an exception that was never raised: no frames) differs from __context__
+            ln = self.emit(m, "%s    raise %s('fromfresh%d') from ValueError('fresh')" % (ind, cls, sid))
         elif catch == "fromnone":
             ln = self.emit(m, "%s    raise %s('suppressed%d') from None" % (ind, cls, sid))
         else:
@@ -223,7 +226,7 @@ def gen_program(r, depth=None, chains=None, unp_rate=.25):
     entry = {"kind": "call", "module": first[0], "expr": first[1]}
     if r.random() < .3:
         # a script executed at top level (a <module> frame whose locals are the script's globals)
-        body = ["import %s" % first[0], "g1 = V[%d]" % p.value(), "__hidden = V[%d]" % p.value("int"),
+        body = ["import %s" % first[0], "V = %s.V" % first[0], "g1 = V[%d]" % p.value(), "__hidden = V[%d]" % p.value("int"),
                 "def helper():", "    return 1", "%s.%s()" % first]
         files["script.py"] = "\n".join(body) + "\n"
         p.lines.append(("script", len(body)))
@@ -427,6 +430,10 @@ def gen_case(seed, i, stream=None):
     c["variables"], c["exclude"] = gen_filters(r, script)
     c["umask"] = r.choice(UMASKS)
     c["pre"] = r.choice(PRE_MODES) if r.random() < .3 else None
-    c["exc_unpicklable"] = False
+    c["exc_unpicklable"] = r.random() < .02       # the exception object itself cannot be pickled (known finding N1)
+    c["root"] = "src"
+    if stream == "debugger" and r.random() < .35:
+        # a directory name with regex metacharacters (known finding N2: the debugger default uses the path as a regex)
+        c["root"] = r.choice(["s+rc", "s(r)c", "s[rc", "s*c", "src++"])
     c["queries"] = gen_queries(r, 3)
     return c
